@@ -15,6 +15,7 @@ KINDS = [
     ('precondition', r'precondition not satisfied'),
     ('invariant_entry', r'invariant not satisfied before loop'),
     ('invariant_step', r'invariant not satisfied at end of loop body'),
+    ('invariant_break', r'loop invariant not satisfied'),
     ('assertion', r'assertion failed'),
     ('overflow', r'possible arithmetic underflow/overflow'),
     ('div_zero', r'possible division by zero'),
